@@ -326,6 +326,17 @@ template <typename W> void run_history(const Case& cs, size_t cell_cap) {
     if (s.stream.size() < 600) s.stream.push_back(e); else s.stream_ok = false;
   };
 
+  // optional initial content (bit i of "pre" = slot i starts with a small bulk stream), so that merges and
+  // serialization points mostly see non-empty sketches
+  const uint64_t pre = static_cast<uint64_t>(cs.get("pre", 0));
+  for (int i = 0; i < NSLOTS; ++i) {
+    if (!((pre >> i) & 1)) continue;
+    touched.clear();
+    apply(slots[i], El{1, It{0, 0}, 0, false, std::min<uint64_t>(30 + (pre * 7 + i * 13) % 90, std::max<uint64_t>(10, 20000 / h)), (pre / 32 + i) % 7, pre + i});
+    check_slot(slots[i], touched, false, fl, "prefill");
+  }
+  if (pre % 32) vf::label("prefilled");
+
   for (const Op& op : cs.ops) {
     touched.clear();
     int si = static_cast<int>(op.uarg(0) % NSLOTS);
@@ -502,7 +513,7 @@ void prop_ctor(const Case& cs) {
 
 // ---------------------------------------------------------------- statistical sub-check (weak)
 // N >= 2000 distinct items; the number of items whose over-estimate exceeds relative_error*total must not exceed
-// N*p + 5*sqrt(N*p*(1-p)) + max(3, 0.15*N*p) with p = e^-num_hashes (Markov bound per row, independent rows).
+// N*p + 5*sqrt(N*p*(1-p)) + max(3, 0.05*N*p) with p = e^-num_hashes (Markov bound per row, independent rows).
 void prop_stat(const Case& cs) {
   uint8_t h = static_cast<uint8_t>(std::min<int64_t>(6, std::max<int64_t>(1, cs.get("h", 2))));
   uint64_t N = static_cast<uint64_t>(std::min<int64_t>(6000, std::max<int64_t>(2000, cs.get("n", 2000))));
@@ -540,7 +551,7 @@ void prop_stat(const Case& cs) {
     if (static_cast<double>(est - w[i]) > thr) ++bad;
   }
   double p = std::exp(-static_cast<double>(h));
-  double allowed = N * p + 5.0 * std::sqrt(N * p * (1 - p)) + std::max(3.0, 0.15 * N * p);
+  double allowed = N * p + 5.0 * std::sqrt(N * p * (1 - p)) + std::max(3.0, 0.05 * N * p);
   // evidence of how close the search gets to the bound
   double ratio = static_cast<double>(bad) / (N * p);
   if (ratio > 0.9) vf::label("stat:bad>90%-of-bound"); else if (ratio > 0.75) vf::label("stat:bad>75%-of-bound"); else if (ratio > 0.5) vf::label("stat:bad>50%-of-bound"); else if (bad > 0) vf::label("stat:bad>0");
@@ -568,7 +579,7 @@ rc::Gen<Op> op_gen() {
       {5, op4("upd", slot, range(0, 3), item_raw_gen(), weight_gen())},
       {2, op3("upd1", slot, range(0, 3), item_raw_gen())},
       {3, op4("bulk", slot, rc::gen::withSize([](int s) { return range(1, 30 + 30 * s); }), range(0, 6), range(0, 1 << 20))},
-      {5, op2("merge", slot, slot)},
+      {6, op2("merge", slot, range(0, NSLOTS - 1))},
       {2, op3("ser", slot, range(0, 2), range(0, 39))},
       {1, op2("copy", slot, range(0, 1))},
       {1, op1("verify", slot)},
@@ -582,7 +593,8 @@ rc::Gen<Case> gen_main() {
                     {"seed", rc::gen::weightedOneOf<int64_t>({{2, rc::gen::just<int64_t>(0)}, {2, range(1, 4)}, {3, range(5, 1 << 20)}})},
                     {"wt", range(0, 2)},
                     {"neg", rc::gen::weightedOneOf<int64_t>({{2, rc::gen::just<int64_t>(0)}, {1, rc::gen::just<int64_t>(1)}})},
-                    {"odd", range(1, 5)}},
+                    {"odd", range(1, 5)},
+                    {"pre", rc::gen::weightedOneOf<int64_t>({{1, rc::gen::just<int64_t>(0)}, {3, range(1, 32 * 7 - 1)}})}},
                    oplist(op_gen(), 4, 0.4));
 }
 rc::Gen<Case> gen_large() {
@@ -592,7 +604,8 @@ rc::Gen<Case> gen_large() {
                     {"seed", range(0, 1 << 20)},
                     {"wt", range(0, 2)},
                     {"neg", pick({0, 0, 0, 1})},
-                    {"odd", range(1, 5)}},
+                    {"odd", range(1, 5)},
+                    {"pre", range(0, 32 * 7 - 1)}},
                    oplist(op_gen(), 2, 0.12));
 }
 rc::Gen<Case> gen_ctor() {
